@@ -48,11 +48,58 @@ def gen(rng, tier):
         else:
             m = mc.gen_wf_mrs(rng, max_nouns=3, shuffle_vars=rng.random() < 0.5, shuffle_rels=rng.random() < 0.5)
             cases.append({"k": "conv", "m": m, "wf": True})
+            cases.append({"k": "back", "m": m})
+    # DMRSs written directly: arbitrary EQ links (several nodes per scope, chains, cycles),
+    # scopal links of both kinds, quantifiers with and without a body, constants
+    from harness.props import c02
+    for i in range(n // 3):
+        g = c02.gen_dmrs(rng, charonly=True, connected=rng.random() < 0.6)
+        for l in g["links"]:
+            if l[2] is None:
+                l[2] = "MOD"
+        if rng.random() < 0.6:
+            # make quantifiers proper: RSTR/H from a typeless node to a typed one
+            for l in g["links"]:
+                if l[2] == "RSTR":
+                    l[3] = "H"
+        cases.append({"k": "backd", "g": {"top": g["top"], "index": g["index"],
+                                          "nodes": [[n["id"], n["pred"], n["type"], n["props"], n["carg"]]
+                                                    for n in g["nodes"]],
+                                          "links": g["links"]}})
     return cases
 
 
 def nontrivial(c):
+    if c["k"] == "backd":
+        return len(c["g"]["nodes"]) >= 3
     return len(c["m"]["rels"]) >= 3
+
+
+def _mrs_json(m):
+    return {"top": m.top, "index": m.index,
+            "rels": [{"pred": ep.predicate, "label": ep.label, "args": [[r, v] for r, v in ep.args.items()]}
+                     for ep in m.rels],
+            "hcons": [[h.hi, h.relation, h.lo] for h in m.hcons],
+            "icons": [[i.left, i.relation, i.right] for i in m.icons],
+            "vars": [[k, [[a, b] for a, b in (ps.items() if hasattr(ps, "items") else ps)]]
+                     for k, ps in m.variables.items()]}
+
+
+def _observe_back(d):
+    """mrs.from_dmrs on a DMRS object; the labels conjoin() chose are read off the result"""
+    import warnings
+    from delphin import mrs
+    with warnings.catch_warnings():
+        warnings.simplefilter("ignore")
+        try:
+            m2 = mrs.from_dmrs(d)
+        except (KeyError, IndexError, ValueError, mrs.MRSError) as e:
+            return {"d": _dmrs_obs(d, 0), "err": type(e).__name__}
+    choice = []
+    for ep in m2.rels:
+        if ep.label not in choice:
+            choice.append(ep.label)
+    return {"d": _dmrs_obs(d, 0), "m2": _mrs_json(m2), "choice": choice}
 
 
 def _dmrs_obs(d, nwarn):
@@ -65,6 +112,21 @@ def _dmrs_obs(d, nwarn):
 def observe(c):
     import warnings
     from delphin import dmrs
+    if c["k"] == "backd":
+        g = c["g"]
+        d = dmrs.DMRS(g["top"], g["index"],
+                      nodes=[dmrs.Node(n[0], n[1], type=n[2], properties=dict(map(tuple, n[3])), carg=n[4])
+                             for n in g["nodes"]],
+                      links=[dmrs.Link(*l) for l in g["links"]])
+        return _observe_back(d)
+    if c["k"] == "back":
+        with warnings.catch_warnings():
+            warnings.simplefilter("ignore")
+            try:
+                d = dmrs.from_mrs(mc.build_mrs(c["m"]))
+            except (IndexError, KeyError, ValueError) as e:
+                return {"skip": type(e).__name__}
+        return _observe_back(d)
     try:
         m = mc.build_mrs(c["m"])
     except ValueError:
@@ -106,6 +168,8 @@ def _strip(m, d):
 def oracle(c):
     import warnings
     from delphin import dmrs, mrs
+    if c["k"] != "conv":
+        return None
     if not c.get("wf", True):
         return None
     m = mc.build_mrs(c["m"])
@@ -186,9 +250,22 @@ def _props(ps):
     return clist(ps, lambda p: "(%s, %s)" % (cstr(p[0]), cstr(p[1])))
 
 
+def _coq_dmrs(d):
+    return ("{| d_top := %s; d_index := %s; d_nodes := %s; d_links := %s; d_warnings := %s |}"
+            % (copt(d["top"], cZ), copt(d["index"], cZ),
+               clist(d["nodes"], lambda n: "{| dn_id := %s; dn_pred := %s; dn_type := %s; dn_props := %s; "
+                     "dn_carg := %s |}" % (cZ(n[0]), cstr(n[1]), copt(n[2], cstr), _props(n[3]), copt(n[4], cstr))),
+               clist(d["links"], lambda l: "(%s, %s, %s, %s)" % (cZ(l[0]), cZ(l[1]), cstr(l[2]), cstr(l[3]))),
+               cnat(d["warnings"])))
+
+
 def coq_case(c, o):
     if "exc" in o:
         raise ValueError("harness")
+    if c["k"] in ("back", "backd"):
+        if "skip" in o or "err" in o:
+            return None          # KeyError etc. on DMRSs outside the model (unpaired quantifier, ...)
+        return app("CFromDmrs", _coq_dmrs(o["d"]), clist(o["choice"], cstr), mc.coq_mrs(o["m2"]))
     if "build" in o:
         return None
     if "err" in o:
